@@ -526,7 +526,7 @@ func c03hdr(p *Program, r *Report, rule string) {
 			lt, k1 := decidedLike(pa, marker+" < 126")
 			e6, k2 := decidedLike(pa, marker+" == 126")
 			e7, k3 := decidedLike(pa, marker+" == 127")
-			if !isZero || !(k1 && !lt && k2 && !e6 && k3 && !e7) {
+			if !isZero || !((k1 && !lt && k2 && !e6 && k3 && !e7) || pa.IntWithin(marker, 0, 127, 1, 0)) {
 				okBits = false
 				detail = append(detail, "payloadLength = "+pl+" on a path with a valid length marker")
 			}
